@@ -150,7 +150,17 @@ def _text(ctx, case, nc):
     if ref is None:
         return
     an = nc.sir.AsNumberAnonymizer(list(nums), salt)
-    fa = nc.af.FileAnonymizer(anon_pwd=False, anon_ip=False, salt=salt, as_numbers=list(nums))
+    # the other options of the run say nothing about AS numbers: a reserved-word list that happens to contain a
+    # listed number, or an IP stage running in undo mode, must not change what happens to them
+    fkw = {}
+    r = rng.random()
+    if r < 0.25:
+        fkw["reserved_words"] = rng.sample(list(nums), min(len(nums), rng.randint(1, 2))) + ["MyWord"]
+        ctx.count("runs_with_listed_number_in_reserved_words")
+    elif r < 0.45 and salt:
+        fkw["undo_ip_anon"] = True
+        ctx.count("runs_in_undo_mode")
+    fa = nc.af.FileAnonymizer(anon_pwd=False, anon_ip=False, salt=salt, as_numbers=list(nums), **fkw)
     lns = case.get("lines") or [gen_line(rng, nums) for _ in range(rng.randint(2, 10))]
     for segs in lns:
         line = "".join(s[0] for s in segs)
